@@ -259,7 +259,10 @@ func c07R1(c *kit.Ctx, m *cmModel, r *kit.Rule) {
 				return []kit.S{s}
 			}
 			st.OnBranch = func(br kit.Branch, s kit.S) (t, fl []kit.S, handled bool) {
-				if br.Kind != kit.BrRange {
+				if br.Kind == kit.BrCase {
+					return cmTagCase(st, br, s)
+				}
+				if br.Kind != kit.BrRange || br.Range == nil {
 					return nil, nil, false
 				}
 				ko, vo := types.Object(nil), types.Object(nil)
@@ -865,7 +868,7 @@ func c07R3(c *kit.Ctx, m *cmModel, r *kit.Rule) {
 			return []kit.S{s}
 		}
 		st.OnBranch = func(br kit.Branch, s kit.S) (t, fl []kit.S, handled bool) {
-			if br.Kind != kit.BrRange || br.Range != sto.loop {
+			if br.Kind != kit.BrRange || br.Range == nil || br.Range != sto.loop {
 				return nil, nil, false
 			}
 			check(s, "end of an iteration")
@@ -1443,7 +1446,10 @@ func c07R5(c *kit.Ctx, m *cmModel, r *kit.Rule) {
 			return []kit.S{s}
 		}
 		st.OnBranch = func(br kit.Branch, s kit.S) (t, fl []kit.S, handled bool) {
-			if br.Kind != kit.BrRange {
+			if br.Kind == kit.BrCase {
+				return cmTagCase(st, br, s)
+			}
+			if br.Kind != kit.BrRange || br.Range == nil {
 				return nil, nil, false
 			}
 			switch br.Range {
@@ -1712,7 +1718,10 @@ func c07R6(c *kit.Ctx, m *cmModel, r *kit.Rule) {
 			return nil
 		}
 		st.OnBranch = func(br kit.Branch, s kit.S) (t, fl []kit.S, handled bool) {
-			if br.Kind != kit.BrRange || !m.isMapExpr(info, br.Range.X) {
+			if br.Kind == kit.BrCase {
+				return cmTagCase(st, br, s)
+			}
+			if br.Kind != kit.BrRange || br.Range == nil || !m.isMapExpr(info, br.Range.X) {
 				return nil, nil, false
 			}
 			if s.Get("it") == "0" && missed == "" {
@@ -1786,6 +1795,9 @@ func c07R6(c *kit.Ctx, m *cmModel, r *kit.Rule) {
 			return "other"
 		}
 		st.OnBranch = func(br kit.Branch, s kit.S) (t, fl []kit.S, handled bool) {
+			if br.Kind == kit.BrCase {
+				return cmTagCase(st, br, s)
+			}
 			if br.Kind != kit.BrSelect || !cmWithin(br.Comm, m.mainSel) || cmEnclosingSelect(f, br.Comm) != m.mainSel {
 				return nil, nil, false
 			}
